@@ -43,9 +43,11 @@ def instances(tier):
             out.append({"kind": "step", "q": q, "k": k, "free": min(q, cap_free)})
     if tier == "thorough":
         out.append({"kind": "step", "q": 10, "k": 1, "free": 10})
-    out.append({"kind": "closed", "how": "never_opened"})
-    out.append({"kind": "closed", "how": "closed_after_open"})
+    for via in ("send", "send_with_header"):
+        out.append({"kind": "closed", "how": "never_opened", "via": via})
+        out.append({"kind": "closed", "how": "closed_after_open", "via": via})
     out.append({"kind": "overfill"})
+    out.append({"kind": "overfill", "eleventh": "predefined"})
     return out
 
 
@@ -180,7 +182,13 @@ def _run_closed(ctx, p):
                 await rig.sock.open_socket()
                 await rig.sock.close()
             try:
-                await rig.sock.send(_msg(g, 1), S.RETRY_IDEMPOTENT)
+                if p.get("via", "send") == "send":
+                    await rig.sock.send(_msg(g, 1), S.RETRY_IDEMPOTENT)
+                else:
+                    # the other public entry point: a caller-supplied header
+                    m = _msg(g, 1)
+                    hdr = g.reg.header_factory.create_from_message(m, g.reg.get_encoder(m.message_id).size(m))
+                    await rig.sock.send_with_header(hdr, m, S.RETRY_IDEMPOTENT)
                 res["r"] = "ok"
             except S.NotOpenError:
                 res["r"] = "notopen"
@@ -205,11 +213,18 @@ def _run_overfill(ctx, p):
         rig.net.on_connect = lambda net, n: ("accept", 0) if n >= 1 else ("refuse",)
         res = []
 
+        # the eleventh message is sent with one of the module's predefined policies (solver-enumerated) - the limit does not
+        # depend on which policy object a message carries
+        predefined = sorted(n for n, v in vars(S).items() if isinstance(v, S.RetryPolicy))
+        last_policy = S.RETRY_IDEMPOTENT
+        if p.get("eleventh") == "predefined":
+            last_policy = getattr(S, predefined[ctx.choice("policy", len(predefined))])
+
         async def go():
             await rig.sock.open_socket()
             for i in range(cap + 1):
                 try:
-                    await rig.sock.send(_msg(g, i), S.RETRY_IDEMPOTENT)
+                    await rig.sock.send(_msg(g, i), S.RETRY_IDEMPOTENT if i < cap else last_policy)
                     res.append("ok")
                 except S.QueueOverflowError:
                     res.append("overflow")
